@@ -47,9 +47,15 @@ package atree
 //@   ensures[C10] err == nil ==> notified > old(notified)
 //@   modifies heap, ghost.sto, ghost.stored, ghost.touched, ghost.notified, alloc
 
-//@ func (m *OrderedMap) PopIterate(fn) (err)  serves C02 C10
+//@ func (m *OrderedMap) PopIterate(fn) (err)  serves C02 C06 C10
 //@   requires m.Storage != nil && m.root != nil && fn != nil
 //@   ensures[C10] err == nil ==> notified > old(notified)
+//@   # the emptied root, as handed to the parent notification: an empty leaf whose size is the prefix of its kind plus the empty element list
+//@   before OrderedMap.notifyParentIfNeeded: is(m.root, *MapDataSlab) && as(m.root, *MapDataSlab).elements != nil && is(as(m.root, *MapDataSlab).elements, *hkeyElements) &&
+//@        len(as(as(m.root, *MapDataSlab).elements, *hkeyElements).elems) == 0 && len(as(as(m.root, *MapDataSlab).elements, *hkeyElements).hkeys) == 0
+//@   before OrderedMap.notifyParentIfNeeded: as(m.root, *MapDataSlab).header.size == ite(as(m.root, *MapDataSlab).inlined, inlinedMapDataSlabPrefixSize, mapRootDataSlabPrefixSize) + hkeyElementsPrefixSize &&
+//@        elsSize(as(m.root, *MapDataSlab).elements) == hkeyElementsPrefixSize
+//@   before OrderedMap.notifyParentIfNeeded: as(m.root, *MapDataSlab).extraData != nil ==> as(m.root, *MapDataSlab).extraData.Count == 0
 //@   modifies heap, ghost.sto, ghost.stored, ghost.touched, ghost.notified, alloc
 
 //@ func (m *MapDataSlab) Inlinable(maxInlineSize) (r)  serves C10
